@@ -474,7 +474,7 @@ def check_filter_structure(ctx, inputs, impl, have_driver):
     }
 
 
-READER_SOUP = ["a", "b", "c.d", "'x or y'", "'not'", "(", ")", "(", ")", "not", "NOT", "and", "AND", "or", "Or", "=", "<", "1", "1 = 1", "@>",
+READER_SOUP = ["a", "b", "a", "b = 2", "x @> 'y'", "c.d", "'x or y'", "'not'", "(", ")", "(", ")", "not", "NOT", "and", "AND", "or", "Or", "=", "<", "1", "1 = 1", "@>",
                "between", "case", "is", "null", "select", "(select 1 where p and q)", "f(x and y)", "::jsonpath", "-- and\n", "/* or */"]
 
 
@@ -485,7 +485,7 @@ def reader_crosscheck(ctx, real_texts, n):
     rnd = random.Random(ctx.seed * 104729 + 4)
     rows = [{"id": k, "sql": t} for k, t in enumerate(real_texts)]
     for _ in range(n):
-        rows.append({"id": len(rows), "sql": " ".join(rnd.choice(READER_SOUP) for _ in range(rnd.randint(1, 12)))})
+        rows.append({"id": len(rows), "sql": " ".join(rnd.choice(READER_SOUP) for _ in range(rnd.randint(1, 9)))})
     inf, outf = ctx.path("boolparse.in.jsonl"), ctx.path("boolparse.model.jsonl")
     write_jsonl(inf, rows)
     p = run_driver("boolparse", inf, outf)
@@ -508,7 +508,7 @@ def reader_crosscheck(ctx, real_texts, n):
                 ctx.l2_broken.append({"stream": "boolparse:lean-vs-python", "id": r["id"], "input": r, "impl": py, "model": m})
     ctx.cov.setdefault("compared", {})["boolparse:lean-vs-python"] = len(rows)
     ctx.cov.setdefault("disagreements", {})["boolparse:lean-vs-python"] = bad
-    return {"captured_where_clauses": len(real_texts), "random_soup": n, "read_by_both": read - bad if bad <= read else 0, "refused_by_python": refused}
+    return {"captured_where_clauses": len(real_texts), "random_soup": n, "read_by_python": read, "refused_by_python": refused, "disagreements": bad}
 
 
 def check_schema_functions(ctx, ledger_funcs, fns):
